@@ -640,8 +640,8 @@ class LocalConcurrences:
                 else:
                     miny, maxy = 0, wp.shape[1]
                     minx, maxx = 0, wp.shape[0]
-                    wp[path[0][0]+1:path[-1][0]+2, miny:maxy] = -wp[path[0][0]+1:path[-1][0]+2, miny:maxy]  # ma.masked
-                    wp[minx:maxx, path[0][1]+1:path[-1][1]+2] = -wp[minx:maxx, path[0][1]+1:path[-1][1]+2]  # ma.masked
+                    wp[path[0][0]+1:path[-1][0]+2, miny:maxy] = -abs(wp[path[0][0]+1:path[-1][0]+2, miny:maxy])  # ma.masked
+                    wp[minx:maxx, path[0][1]+1:path[-1][1]+2] = -abs(wp[minx:maxx, path[0][1]+1:path[-1][1]+2])  # ma.masked
             elif buffer > 0 and lcm is not None:
                 miny, maxy = 0, wp.shape[1] - 1
                 minx, maxx = 0, wp.shape[0] - 1
